@@ -421,6 +421,10 @@ func (m *MonC05) Probe(idx int) {
 	// enter: delegate 1 unit and a large amount of every started-or-not asset to every validator
 	for vi := range w.Vals {
 		val := w.Vals[vi].Oper.String()
+		if v := s.Vals[val]; v == nil || !v.Exists {
+			rep.Class("C05.validator-removed")
+			continue // the property speaks of existing validators: this one was removed from x/staking
+		}
 		for _, den := range s.AssetOrder {
 			for _, amt := range []string{"1", probeLarge(m.R.Cfg, den)} {
 				if m.R.Halt {
@@ -445,6 +449,21 @@ func (m *MonC05) Probe(idx int) {
 			return
 		}
 		bal := s.Reported(pk)
+		if v := s.Vals[pk.Val]; (v == nil || !v.HasInfo) && s.Dels[pk].Shares.IsPositive() {
+			// a delegation whose validator record is gone (x/staking removed the validator): no balance can even be
+			// reported for it; the delegator must still not be locked in
+			a, vi := w.ActorIndex(pk.Del), w.ValIndex(pk.Val)
+			if a >= 0 && vi >= 0 {
+				rep.Eval("C05.orphaned-position")
+				bctx, _ := w.Ctx.CacheContext()
+				res := w.RunMsgOn(bctx, m.R.buildMsg(Step{K: "undelegate", A: a, V: vi, Den: pk.Denom, Amt: "1"}), true)
+				if !res.OK {
+					rep.Violate("C05", "C05.orphaned-position", idx, "delegation (%s,%s,%s) with %s shares outlived its validator's share record and can no longer be undelegated: %s", w.Name(pk.Del), w.Name(pk.Val), pk.Denom, s.Dels[pk].Shares, res)
+					return
+				}
+			}
+			continue
+		}
 		if bal.Sign() <= 0 {
 			continue
 		}
